@@ -100,6 +100,15 @@ CHECKS["C01"] = dict(
          "every value of the per-type alphabets, and the Rust-side log / C-side dump must equal the oracle computed from the Rust source types; nm symbols must equal header prototypes.",
     note="Trusted: the value-model compiler (lib/vlib/abi.py) emitting Rust/C literals and dumps, gcc, the x86-64 SysV ABI as the platform under test (other targets not executed).")
 
+CHECKS["C02"] = dict(
+    category="exploration", design="§2 C02",
+    technique="the C01 enumeration driven through the generated C++ class API (g++ -std=c++17 and -std=c++20, ASan/UBSan, executed) + exhaustive byte-string sweep of the UTF-8 rule for direct &str parameters",
+    text="The same generated Rust methods as C01 are called through the real C++ backend's classes (std::optional, string_view, span, struct, enum wrapper, references, "
+         "std::function, unique_ptr, diplomat::result, std::string), in both language standards, incl. namespaced and renamed types and methods; every value dump must equal the oracle. "
+         "Every byte string of length <= 2 and every string of length 3-4 over the boundary alphabet is passed as a direct &str: it must be rejected on the C++ side iff the reference "
+         "recogniser rejects it, and must not reach Rust then.",
+    note="Trusted: as C01, plus g++/libstdc++. feature_tests/example headers are compiled by C09, not executed here.")
+
 CHECKS["C10"] = dict(
     category="exploration", design="§2 C10",
     technique="same enumeration as C01 restricted to Option/Result shapes, plus sizeof-vs-size_of comparison for every result record and declaration comparison of std/DiplomatOption spelling pairs",
